@@ -5,8 +5,10 @@ import (
 	"context"
 	"errors"
 	"fmt"
+	"hash/fnv"
 	"io"
 	"os"
+	"sort"
 	"strings"
 
 	"github.com/cloudwego/eino/components/tool"
@@ -286,6 +288,7 @@ func (sp *spec) build() (func(), func(x *vsched.Exec) (string, error)) {
 		if err == nil && ctx != nil {
 			// evidence that completion orders really differ: executions per (number of calls, completion order)
 			ctx.Count(fmt.Sprintf("executions/%d-calls/completion-order-%s", len(sp.calls), renderOrder(w.finished)), 1)
+			ctx.Count(fmt.Sprintf("executions/%s/%s/%d-calls", sp.host, sp.mode, len(sp.calls)), 1)
 		}
 		return o, err
 	}
@@ -406,6 +409,9 @@ func (sp *spec) judge(w *world, ob *observation, x *vsched.Exec) (string, error)
 	switch {
 	case hasUnknown && !sp.handler:
 		// an unknown tool name is an error unless a handler is configured
+		if ob.callerPanic != "" {
+			return "", bad("unexpected-panic", "unknown tool name without handler: ToolsNode.%s panicked instead of returning an error: %s", sp.mode, firstLine(ob.callerPanic))
+		}
 		if !failed {
 			return "", bad("unknown-not-rejected", "call list %v names an unknown tool and no handler is configured, but the call returned %s", sp.calls, renderMsgs(ob.msgs))
 		}
@@ -416,8 +422,8 @@ func (sp *spec) judge(w *world, ob *observation, x *vsched.Exec) (string, error)
 		}
 		if ob.callerPanic != "" {
 			// only a bare ToolsNode (no enclosing run) and only a panicking tool can get here
-			if len(panicking) == 0 {
-				return "", bad("unexpected-panic", "no tool panics but ToolsNode.%s panicked: %s [%s]", sp.mode, firstLine(ob.callerPanic), order)
+			if len(panicking) == 0 || !strings.Contains(ob.callerPanic, "tool-panic:") {
+				return "", bad("unexpected-panic", "ToolsNode.%s panicked with something that is not a tool's panic: %s [%s]", sp.mode, firstLine(ob.callerPanic), order)
 			}
 			return "panic-to-direct-caller " + order, nil
 		}
@@ -463,14 +469,13 @@ func (sp *spec) judge(w *world, ob *observation, x *vsched.Exec) (string, error)
 	return "ok " + order, nil
 }
 
-// effFail is the failure of tool name in the arm the mode uses (mid-stream errors exist only in the
-// streamable arm; a `both` tool is invoked through InvokableRun by Invoke and StreamableRun by Stream).
+// effFail is the configured failure of an actor ("" = none). A mid-stream error exists only for
+// streamable-only tools, whose streamable arm serves Invoke (through concatenation) as well as Stream.
 func (sp *spec) effFail(name string) string {
-	fl := sp.fail[name]
-	if fl == "" {
-		return fOK
+	if fl := sp.fail[name]; fl != "" {
+		return fl
 	}
-	return fl
+	return fOK
 }
 
 func classify(ms []*schema.Message, sp *spec, n int) string {
@@ -675,31 +680,43 @@ func menu(sp *spec, quick bool) (bool, []int) {
 		}
 	}
 	if ft.merge && ft.n == 3 {
-		if !ft.allYield || !ft.kindIn(mainKindPatterns...) {
+		if !ft.allYield || !ft.kindIn(mainKindPatterns...) || ft.nMid > 1 {
 			return false, nil
 		}
+		single := !ft.twoChunk && ft.nMid == 0 // every merged stream carries one chunk
 		if quick {
 			switch {
-			case !ft.twoChunk && ft.nMid == 0 && ft.kindIn(kInv) && sp.host == "direct" && pb2StreamLists[list]:
+			case single && ft.kindIn(kInv) && sp.host == "direct" && pb2StreamLists[list]:
 				return true, []int{0, 1, 2}
-			case !ft.twoChunk && ft.nMid == 0 && ft.kindIn(kInv, kS1):
+			case single && ft.kindIn(kInv) && sp.host == "direct":
 				return true, []int{0, 1}
-			case ft.kindIn(kS2) && ft.nMid <= 1 && sp.host == "direct":
+			case single && ft.kindIn(kS1) && sp.host == "direct":
+				return true, []int{0}
+			case single && ft.kindIn(kInv) && pb2StreamLists[list]:
+				return true, []int{0, 1}
+			case single && ft.kindIn(kInv):
+				return true, []int{0}
+			case ft.kindIn(kS2) && sp.host == "direct":
 				return true, []int{0}
 			case ft.kindIn(kS2) && ft.nMid == 0 && pb2StreamLists[list]:
 				return true, []int{0}
 			}
 			return false, nil
 		}
-		if ft.nMid > 1 {
-			return false, nil
-		}
-		if ft.twoChunk || ft.nMid > 0 {
+		switch {
+		case single:
+			return true, []int{0, 1, 2}
+		case ft.kindIn(kS2, kInv+","+kS2):
 			return true, []int{0, 1}
 		}
-		return true, []int{0, 1, 2}
+		return true, []int{0}
 	}
 	if !quick {
+		if ft.merge || ft.nMid > 0 {
+			// two merged streams, or tools that fill a pipe (channel operations inside the body):
+			// unbounded is out of reach
+			return true, []int{0, 1, 2, 3}
+		}
 		return true, full
 	}
 	// ---- quick tier, cheap scenarios (Invoke; Stream of <= 2 calls; Stream calls that fail before the merge)
@@ -735,12 +752,13 @@ func main() {
 	}
 	c.Res.Explanation = "stateless exhaustive exploration of real ToolsNode.Invoke/Stream calls (bare and inside a compiled graph) with recording tools; oracle per execution = the statement: N tool messages, the i-th with the i-th call id and f(name_i,args_i); the streamed chunks concatenate position-wise (concatMessageArray semantics) to the same list; a failing tool fails the call with an error that errors.Is its error; a panicking tool gives a run error, no crashed goroutine, no hang, nothing left blocked; an unknown name is an error, or with a handler the handler's answer at that index"
 	if quick {
-		c.Res.Notes = append(c.Res.Notes, "quick bounds: {0,1,2} for every Invoke scenario, every Stream scenario with <= 2 calls and every Stream scenario that fails before the merge; Stream of 3 calls that reaches the merge: single-chunk tools {0,1} (three lists on the bare node {0,1,2}), two-chunk tools {0}")
+		c.Res.Notes = append(c.Res.Notes, "quick bounds: {0,1,2} for every Invoke scenario, every Stream scenario with <= 2 calls and every Stream scenario that fails before the merge; Stream of 3 calls that reaches the merge (all tools yield): invokable-only tools on the bare node {0,1} (three lists {0,1,2}), inside a graph {0} (three lists {0,1}); streamable-only tools (one or two chunks, mid-stream error) {0}")
 	} else {
-		c.Res.Notes = append(c.Res.Notes, "thorough bounds: {0,1,2,3,unbounded} for every Invoke scenario, every Stream scenario with <= 2 calls and every Stream scenario that fails before the merge; Stream of 3 calls that reaches the merge: single-chunk tools {0,1,2}, two-chunk tools or mid-stream error {0,1}")
+		c.Res.Notes = append(c.Res.Notes, "thorough bounds: {0,1,2,3,unbounded} for every Invoke scenario, every Stream scenario of one call and every Stream scenario that fails before the merge; Stream of 2 calls that reaches the merge and every scenario with a mid-stream error {0,1,2,3}; Stream of 3 calls that reaches the merge (all tools yield, six kind patterns): single-chunk tools {0,1,2}, two-chunk streamable-only tools or a mid-stream error {0,1}, tools implementing both interfaces {0}")
 	}
 
 	all := append(append([]string(nil), toolNames...), unknownName)
+	var entries []entry
 	for _, calls := range callLists() {
 		base := features(&spec{calls: calls})
 		for _, handler := range []bool{false, true} {
@@ -790,16 +808,7 @@ func main() {
 										}
 										return "other"
 									}}
-								if c.Replay != "" {
-									c.ReplayScenario(sc)
-									continue
-								}
-								if !c.Mine(sp.name) {
-									continue
-								}
-								c.Count("scenarios_"+mode+"_"+host, 1)
-								c.Sample(map[string]any{"scenario": sp.name, "bounds": bounds})
-								c.Add(sc)
+								entries = append(entries, entry{sp: sp, sc: sc, key: nameHash(sp.name)})
 							}
 						}
 					}
@@ -807,6 +816,43 @@ func main() {
 			}
 		}
 	}
+	// Workers take scenarios round-robin. Mode and host are the innermost loops (period 4), so with 8 or 16
+	// workers the plain enumeration order would hand all in-graph Stream scenarios (the expensive ones) to
+	// the same few workers. Keep "fewer calls first" and spread the rest by a hash of the name.
+	sort.SliceStable(entries, func(i, j int) bool {
+		a, b := entries[i], entries[j]
+		if len(a.sp.calls) != len(b.sp.calls) {
+			return len(a.sp.calls) < len(b.sp.calls)
+		}
+		if a.key != b.key {
+			return a.key < b.key
+		}
+		return a.sp.name < b.sp.name
+	})
+	for _, e := range entries {
+		if c.Replay != "" {
+			c.ReplayScenario(e.sc)
+			continue
+		}
+		if !c.Mine(e.sp.name) {
+			continue
+		}
+		c.Count("scenarios_"+e.sp.mode+"_"+e.sp.host, 1)
+		c.Sample(map[string]any{"scenario": e.sp.name, "bounds": e.sc.Bounds})
+		c.Add(e.sc)
+	}
 	c.ExploreAll()
 	c.Finish()
+}
+
+type entry struct {
+	sp  *spec
+	sc  harness.Scenario
+	key uint64
+}
+
+func nameHash(s string) uint64 {
+	h := fnv.New64a()
+	h.Write([]byte(s))
+	return h.Sum64()
 }
